@@ -246,7 +246,7 @@ pub fn cli_codec(ctx: &mut Ctx) {
     }
     // ---------- multipart file names: correspondence with the model on simple paths
     {
-        let comps = ["a", "archive", "my.backup", ".hidden", "a.part3", "x.tar", "a.PNA", "name.part", "a.partx", "ünï", "a b", "a.pna", "v1.2.pna", "a.part12.pna", "a.part.pna", "a.partition.pna", "..pna", "a.", "a..pna", ".pna", "a.part1", "a.tar.gz", "...x", "a.part07.Pna", "part1.pna", ".part1.pna"];
+        let comps = ["a", "archive", "my.backup", ".hidden", "a.part3", "x.tar", "a.PNA", "name.part", "a.partx", "ünï", "a b", "a.pna", "v1.2.pna", "a.part12.pna", "a.part.pna", "a.partition.pna", "..pna", "a.", "a..pna", ".pna", "a.part1", "a.tar.gz", "...x", "a.part07.Pna", "part1.pna", ".part1.pna", "a.part+1.pna", "x.part+0012", "a.part18446744073709551616.pna", "a.part-1.pna", "a.part 1.pna", "a.part1_.pna"];
         let dirs = ["", "dir/", "dir.d/", "/abs/p/", "a.part1.pna/", "../"];
         let nn = if ctx.thorough { 4000 } else { 600 };
         for i in 0..nn {
@@ -308,7 +308,7 @@ pub fn cli_codec(ctx: &mut Ctx) {
             Some(m) => (is_marker(last) && !(m.is_empty() && !has_stem)) || (has_stem && is_marker(m)),
         }
     }
-    for name in ["x.partial.pna", "notes.partly.pna", "a.partition.pna", "name.part", "a.partx", "v.part.pna", "my.particle.tar", "a.part1x.pna", "data.pna", "plain", "a.b.c.d", "x.PART1.pna", "x.part-1.pna", "x.part٣.pna"] {
+    for name in ["x.partial.pna", "notes.partly.pna", "a.partition.pna", "name.part", "a.partx", "v.part.pna", "my.particle.tar", "a.part1x.pna", "data.pna", "plain", "a.b.c.d", "x.PART1.pna", "x.part-1.pna", "x.part٣.pna", "data.part+1.pna", "x.part+0012", "x.part 7.pna"] {
         for dir in ["", "dir/", "./", "/abs/p/"] {
             let p = format!("{dir}{name}");
             ctx.oracle_eval();
